@@ -1457,6 +1457,35 @@ def rule_r11(prog, res):
                         'stays open' % (unparse(c)[:40], what))
 
 
+# ------------------------------------------------------------------ R12
+def rule_r12(prog, res):
+    res.rule('R12', 'the request body reader raises Faults only: it is a '
+             'generator consumed inside create_in_document, where only a '
+             'Fault reaches handle_error')
+    from ..callgraph import CallGraph
+    from ..excflow import ExcFlow
+    ef = ExcFlow(prog, CallGraph(prog))
+    w = prog.cls('spyne.server.wsgi:WsgiApplication')
+    f = w.methods.get('__wsgi_input_to_iterable')
+    if f is None:
+        raise AnalysisError('WsgiApplication.__wsgi_input_to_iterable',
+                            'not found')
+    esc = ef.escapes(f)
+    res.floor('R12', 'raise sites of the body reader', len(esc), 1)
+    for r in esc:
+        ok = r.exc == 'Fault'
+        res.ob('R12', r.where, 'the body reader raises %s (%s)' % (
+            r.exc, r.why[:50]), 'ok' if ok else 'VIOLATED')
+        if not ok:
+            res.finding('R12', 'WsgiApplication.__wsgi_input_to_iterable|%s'
+                        % r.exc, r.where, 'the body reader can raise %s (%s): '
+                        'the generator runs inside create_in_document, '
+                        'generate_contexts only catches Fault, so the '
+                        'exception leaves the WSGI callable before '
+                        'start_response (a Content-Length that is not a '
+                        'number)' % (r.exc, r.why[:60]))
+
+
 def run(prog, res, tier):
     res.run_rule(rule_r1, prog, res)
     res.run_rule(rule_r2, prog, res)
@@ -1469,11 +1498,20 @@ def run(prog, res, tier):
     res.run_rule(rule_r9, prog, res)
     res.run_rule(rule_r10, prog, res)
     res.run_rule(rule_r11, prog, res)
+    res.run_rule(rule_r12, prog, res)
 
 
 _W = 'spyne/server/wsgi.py'
 
 MUTANTS = [
+    Mutant('content-length-unparsed', 'R12', 'fire', _W,
+           in_func('WsgiApplication.__wsgi_input_to_iterable',
+                   "            except ValueError:\n", "            except "
+                   "KeyError:\n"), 'ValueError'),
+    Mutant('content-length-error-any', 'R12', 'benign', _W,
+           in_func('WsgiApplication.__wsgi_input_to_iterable',
+                   "            except ValueError:\n", "            except "
+                   "(TypeError, ValueError):\n"), None),
     Mutant('prefetch-outside-funnel', 'R11', 'fire', 'spyne/server/wsgi.py',
            in_func('WsgiApplication.handle_rpc',
                    "            except Exception as e:\n                # the "
